@@ -255,7 +255,7 @@ def job_visc(job):
         check_defined(job, f"viscosity/{side}", r)
 
 
-def replay_array(model, dtype="f8", intparams=False):
+def replay_array(model, dtype="f8", intparams=False, descending=False):
     """The orderings on the array entry points (one call with both pressures), real code."""
     import numpy as np
     from bluebonnet.fluids import oil
@@ -289,8 +289,13 @@ def replay_array(model, dtype="f8", intparams=False):
                 return True, {"what": f"array entry points with an element exactly at the bubble point p_b={pb!r}: " + "; ".join(bad[:2]), "inputs": m, "pressures": trial}
     arr = np.array(ps, dtype={"f8": "float64", "i8": "int64", "i4": "int32"}[dtype])
     with np.errstate(all="ignore"):
-        rs = np.asarray(oil.solution_gor_Standing(T_, arr, api, gg, rsi), float)
-        bo = np.asarray(oil.b_o_Standing(T_, arr, api, gg, rsi), float)
+        if descending:
+            # the same two pressures listed from high to low (a depletion sequence); results mapped back to ascending order
+            rs = np.asarray(oil.solution_gor_Standing(T_, arr[::-1].copy(), api, gg, rsi), float)[::-1]
+            bo = np.asarray(oil.b_o_Standing(T_, arr[::-1].copy(), api, gg, rsi), float)[::-1]
+        else:
+            rs = np.asarray(oil.solution_gor_Standing(T_, arr, api, gg, rsi), float)
+            bo = np.asarray(oil.b_o_Standing(T_, arr, api, gg, rsi), float)
     problems = []
     for j, p in enumerate(ps):
         if p < pb:
@@ -317,7 +322,9 @@ def job_array(job, variants=(("f8", False), ("i8", False), ("i8", True), ("f8", 
     job.encoded(oil, "solution_gor_Standing", "b_o_Standing", "pressure_bubblepoint_Standing")
     job.stub("oil_compressibility_undersat_Spivey: positive uninterpreted function")
     job.bound(array_form="length 2, dtypes float64 / int64, scalar parameters float or Python int (whole numbers)")
-    for dt, intp in variants:
+    for var in variants:
+        dt, intp = var[0], var[1]
+        desc = len(var) > 2 and var[2]
         ranges = dict(OIL_BOX)
         ranges.update(p1=(15, 50000), p2=(15, 50000))
         vs, dom = box(job, _integer=("T", "api", "rsi") if intp else (), **ranges)
@@ -326,13 +333,15 @@ def job_array(job, variants=(("f8", False), ("i8", False), ("i8", True), ("f8", 
         p1, p2 = vs["p1"], vs["p2"]
         pb, pbc = _pb_conds(oil, a4, [p1, p2])
         dom = dom + pbc + [T.b_lt(P(p1), P(p2))]
-        tagv = f"{ {'f8': 'float64', 'i8': 'int64'}[dt] }{',python-int parameters' if intp else ''}"
-        rp = (replay_array, {"dtype": dt, "intparams": intp})
+        tagv = f"{ {'f8': 'float64', 'i8': 'int64'}[dt] }{',python-int parameters' if intp else ''}{',listed high to low' if desc else ''}"
+        rp = (replay_array, {"dtype": dt, "intparams": intp, "descending": desc})
 
         def run():
-            arr = SymArray([p1, p2], dt)
+            arr = SymArray([p2, p1] if desc else [p1, p2], dt)
             rs = oil.solution_gor_Standing(T_, arr, api, gg, rsi)
             bo = oil.b_o_Standing(T_, arr, api, gg, rsi)
+            if desc and isinstance(rs, SymArray) and isinstance(bo, SymArray) and len(rs.d) == 2 and len(bo.d) == 2:
+                rs, bo = SymArray(list(reversed(rs.d)), rs.dtype_tag), SymArray(list(reversed(bo.d)), bo.dtype_tag)
             return rs, bo, bool(p1 >= pb), bool(p2 >= pb)
         res = paths(job, run, dom, max_paths=32)
         seen = set()
@@ -362,6 +371,10 @@ def job_array(job, variants=(("f8", False), ("i8", False), ("i8", True), ("f8", 
             job.errors.append(f"array[{tagv}]: expected the three orderings around the bubble point, got {sorted(seen)}")
 
 
+from .c19 import job_facade_oil_reassigned, replay_facade  # noqa: E402,F401
+
+
 def jobs(tier):
-    return [("continuity", job_continuity), ("Rs", job_rs), ("Bo", job_bo), ("viscosity", job_visc)] + \
-        [(f"array-{dt}{'-int' if intp else ''}", (lambda j, v=(dt, intp): job_array(j, (v,)))) for dt, intp in (("f8", False), ("i8", False), ("i8", True), ("f8", True))]
+    return [("continuity", job_continuity), ("Rs", job_rs), ("Bo", job_bo), ("viscosity", job_visc), ("facade-oil-reassigned", job_facade_oil_reassigned)] + \
+        [(f"array-{dt}{'-int' if intp else ''}", (lambda j, v=(dt, intp): job_array(j, (v,)))) for dt, intp in (("f8", False), ("i8", False), ("i8", True), ("f8", True))] + \
+        [("array-f8-descending", lambda j: job_array(j, (("f8", False, True),)))]
